@@ -234,3 +234,36 @@ def lemma_netloc_roundtrip(user, password, host, port):
     h = unbracket(host)
     return split_netloc(make_netloc(user, password, host, port)) == (
         user if user else None, password, h if h else None, port)
+
+
+# ---------------------------------------------------------------- lemma: parse . unparse (C03)
+
+LOWER_SCHEME_TAIL = "abcdefghijklmnopqrstuvwxyz" + digits + "+-."
+CTL3 = "\t\r\n"
+
+
+def parts_wellformed(scheme, netloc, path, query, fragment):
+    """structural invariant of the five stored parts of a URL the library produces from valid
+    input (RFC-valid lower-case scheme, delimiters only where the grammar puts them)"""
+    first = first_of(path, "/")
+    return ((scheme == "" or (scheme[0] in "abcdefghijklmnopqrstuvwxyz" and all_chars_in(scheme[1:], LOWER_SCHEME_TAIL)))
+            and first_of(netloc, "/?#" + CTL3) == len(netloc) and netloc.isascii()
+            and not ("[" in netloc) and not ("]" in netloc)
+            and first_of(path, "?#" + CTL3) == len(path)
+            and first_of(query, "#" + CTL3) == len(query)
+            and first_of(fragment, CTL3) == len(fragment)
+            and (netloc == "" or path == "" or path[0] == "/")
+            and (netloc != "" or path[:2] != "//")
+            # RFC 3986 4.2: a rootless path of a reference without scheme and authority has no ':' in
+            # its first segment, and (yarl strips them) does not start with a C0 control or space
+            and (scheme != "" or netloc != "" or (first_of(path[:first], ":") == first
+                                                   and (path == "" or not (path[0] in C0_CONTROL_OR_SPACE))))
+            and (scheme != "" or netloc != "" or path != "" or query == "" or not (query[0] in C0_CONTROL_OR_SPACE))
+            # urlunsplit roots the path of a scheme that uses an authority: excluded (known finding)
+            and (not (scheme in USES_AUTHORITY) or netloc != "" or path == "" or path[0] == "/"))
+
+
+def lemma_split_unsplit(scheme, netloc, path, query, fragment):
+    """C03: the string form of well-formed parts parses back into the same parts (an empty
+    path before a query/fragment is written as it is stored)"""
+    return split_url(unsplit_result(scheme, netloc, path, query, fragment)) == (scheme, netloc, path, query, fragment)
